@@ -414,6 +414,6 @@ static void finalize(const Plan &plan, EndReason r) {
     (void)plan;
 }
 
-static struct Reg { Reg() { register_family(Family{"tls", gen, setup, finalize, nullptr, nullptr}); } } reg;
+static struct Reg_tls { Reg_tls() { register_family(Family{"tls", gen, setup, finalize, nullptr, nullptr}); } } reg;
 
 }  // namespace xs
